@@ -200,6 +200,7 @@ def update_from_gh_json():
         },
         ensures=[
             ('head-commit-recorded', "self.source_sha == gh_json['head']['sha']"),
+            ('labels-are-exactly-those-github-reports', "forall('U', lambda q: (q in self.labels) == exists(lambda i: 0 <= i < len(gh_json['labels']) and gh_json['labels'][i]['name'] == q))"),
             ('a-new-head-invalidates-batch-merge-sha-and-build-state', "implies(old(self.source_sha) != gh_json['head']['sha'], self.batch is None and self.sha is None and self.build_state is None and self.source_sha_failed is None and self.target_branch.batch_changed and self.target_branch.state_changed)"),
             ('J-preserved', "implies(self.build_state == 'success', self.batch is not None and succeeded(self.batch))"),
         ],
